@@ -2,7 +2,7 @@
    Print Assumptions.  S, w, th range over ALL worlds (arbitrary effects of
    identifier reads, property get/set/delete, calls and operators on an
    arbitrary user state) and all values of this. *)
-From V Require Import Common.Base C05.Syntax C05.Sem C05.Lower C05.Frame C05.LowerProofs C05.Witness.
+From V Require Import Common.Base C05.Syntax C05.Sem C05.Lower C05.Frame C05.LowerProofs C05.SimLogic C05.Steps C05.Witness.
 
 (* An evaluation reads and writes only the temporaries that occur in the
    expression: fresh temporaries cannot be observed by, or interfere with, any
@@ -12,78 +12,56 @@ Theorem temporaries_are_framed :
 Proof. exact eval_framed. Qed.
 Print Assumptions temporaries_are_framed.
 
-(* lowerNullishCoalescing: "a ?? b" and its lowering "(_n = a) != null ? _n : b"
-   (or "a != null ? a : b" when a needs no capture) have the same events, final
-   state and value/exception, for all operand expressions (possibly already
-   lowered, containing other temporaries), provided the temporary does not
-   occur in b and - only if a is a bare identifier, which esbuild never
-   captures - reading that identifier is pure.  PARTIAL: the identifier side
-   condition cannot be dropped (lowering_nullish_identifier_refuted). *)
-Theorem lower_nullish_equiv_partial :
+(* Per-step theorems, ALL operand expressions (already lowered or not), all
+   worlds.  An operand is either captured in a temporary by esbuild or is one
+   of the expressions it duplicates instead (null, undefined, this, literals,
+   identifiers).  [cap_ok t]: t is not such an expression, or it is a literal /
+   this, or it is an identifier that is a constant binding [const_var].  The
+   refuted shapes F1-F3 are exactly duplicated identifiers that are not
+   constant (accessor-backed global; variable reassigned by a getter).
+   [below n e]: every temporary in e is smaller than n (what the visitor's
+   counter guarantees). *)
+
+(* a ?? b  ==  (_n = a) != null ? _n : b   /   a != null ? a : b *)
+Theorem lower_nullish_equiv :
   forall (S : Type) (w : world S) (th : val) (a b : expr) (n : Z),
-    ~ In n (tmps b) ->
-    (forall x, a = EId x -> pure_var S w x) ->
+    cap_ok S w a -> ~ In n (tmps a) -> ~ In n (tmps b) ->
     forall m s, observe (eval w th (fst (lowerNullishCoalescing a b n)) m s)
               = observe (eval w th (EBin BNullish a b) m s).
-Proof. exact lowerNullish_equiv. Qed.
-Print Assumptions lower_nullish_equiv_partial.
+Proof. exact lowerNullish_general. Qed.
+Print Assumptions lower_nullish_equiv.
 
-(* a.b ||= v / a.b &&= v with a captured object expression:
-   "(_n = t).name || (_n.name = v)" *)
-Theorem lower_logical_assign_dot_equiv_partial :
-  forall (S : Type) (w : world S) (th : val) F op t name v n,
-    f_logasg F = true -> is_inline_value t = false -> ~ In n (tmps v) ->
-    forall r, lowerLogicalAsg F op (EDot t name OcNone) v n = Some r ->
-    (op = BOr -> obs_eq S w th (fst r) (EOpAsg AOr (EDot t name OcNone) v)) /\
-    (op = BAnd -> obs_eq S w th (fst r) (EOpAsg AAnd (EDot t name OcNone) v)).
-Proof. exact lowerLogicalAsg_dot_captured. Qed.
-Print Assumptions lower_logical_assign_dot_equiv_partial.
+(* tgt ||= v, tgt &&= v for tgt = x | t.name | t[k]: object and key evaluated
+   once and in order, the key value reaches get and set unchanged, v evaluated
+   at most once and only when the test fails / succeeds *)
+Theorem lower_logical_assign_equiv :
+  forall (S : Type) (w : world S) (th : val) F bop aop tgt v n r,
+    f_logasg F = true -> (bop = BOr /\ aop = AOr) \/ (bop = BAnd /\ aop = AAnd) ->
+    valid_target S w tgt -> below n tgt -> below n v ->
+    lowerLogicalAsg F bop tgt v n = Some r ->
+    forall m s, observe (eval w th (fst r) m s) = observe (eval w th (EOpAsg aop tgt v) m s).
+Proof. exact lowerLogicalAsg_general. Qed.
+Print Assumptions lower_logical_assign_equiv.
 
-(* t[k] ||= v / t[k] &&= v with object and key captured:
-   "(_n = t)[_n1 = k] || (_n[_n1] = v)": t, k, v evaluated once, in this order *)
-Theorem lower_logical_assign_index_equiv_partial :
-  forall (S : Type) (w : world S) (th : val) F op t k v n,
-    f_logasg F = true -> is_inline_value t = false -> is_inline_value k = false ->
-    ~ In n (tmps k) -> ~ In n (tmps v) -> ~ In (n + 1) (tmps v) ->
-    forall r, lowerLogicalAsg F op (EIndex t k OcNone) v n = Some r ->
-    (op = BOr -> obs_eq S w th (fst r) (EOpAsg AOr (EIndex t k OcNone) v)) /\
-    (op = BAnd -> obs_eq S w th (fst r) (EOpAsg AAnd (EIndex t k OcNone) v)).
-Proof. exact lowerLogicalAsg_index_captured. Qed.
-Print Assumptions lower_logical_assign_index_equiv_partial.
-
-(* x ||= v, x &&= v on an identifier: no side condition at all *)
-Theorem lower_logical_assign_id_equiv :
-  forall (S : Type) (w : world S) (th : val) F x v n r,
+(* tgt ??= v, whether or not ?? itself must be lowered as well *)
+Theorem lower_nullish_assign_equiv :
+  forall (S : Type) (w : world S) (th : val) F tgt v n r,
     f_logasg F = true ->
-    (lowerLogicalAsg F BOr (EId x) v n = Some r -> obs_eq S w th (fst r) (EOpAsg AOr (EId x) v)) /\
-    (lowerLogicalAsg F BAnd (EId x) v n = Some r -> obs_eq S w th (fst r) (EOpAsg AAnd (EId x) v)).
-Proof. exact lowerLogicalAsg_id_equiv. Qed.
-Print Assumptions lower_logical_assign_id_equiv.
+    valid_target S w tgt -> below n tgt -> below n v ->
+    (f_nullish F = true -> forall x, tgt = EId x -> const_var S w x) ->
+    lowerNullishAsg F tgt v n = Some r ->
+    forall m s, observe (eval w th (fst r) m s) = observe (eval w th (EOpAsg ANullish tgt v) m s).
+Proof. exact lowerNullishAsg_general. Qed.
+Print Assumptions lower_nullish_assign_equiv.
 
-(* x **= v  =>  x = __pow(x, v)   (no side condition) *)
-Theorem lower_exponent_assign_id_equiv :
-  forall (S : Type) (w : world S) (th : val) x v n,
-    obs_eq S w th (fst (lowerExpAsg (EId x) v n)) (EOpAsg APow (EId x) v).
-Proof. exact lowerExpAsg_id_equiv. Qed.
-Print Assumptions lower_exponent_assign_id_equiv.
-
-(* t.name **= v  =>  (_n = t).name = __pow(_n.name, v) *)
-Theorem lower_exponent_assign_dot_equiv_partial :
-  forall (S : Type) (w : world S) (th : val) t name v n,
-    is_inline_value t = false -> ~ In n (tmps v) ->
-    obs_eq S w th (fst (lowerExpAsg (EDot t name OcNone) v n)) (EOpAsg APow (EDot t name OcNone) v).
-Proof. exact lowerExpAsg_dot_captured. Qed.
-Print Assumptions lower_exponent_assign_dot_equiv_partial.
-
-(* t.name ??= v, with and without ?? itself being lowered *)
-Theorem lower_nullish_assign_dot_equiv_partial :
-  forall (S : Type) (w : world S) (th : val) F t name v n r,
-    f_logasg F = true -> is_inline_value t = false ->
-    ~ In n (tmps v) -> ~ In (n + 1) (tmps v) ->
-    lowerNullishAsg F (EDot t name OcNone) v n = Some r ->
-    obs_eq S w th (fst r) (EOpAsg ANullish (EDot t name OcNone) v).
-Proof. exact lowerNullishAsg_dot_captured. Qed.
-Print Assumptions lower_nullish_assign_dot_equiv_partial.
+(* tgt **= v  ==  tgt' = __pow(tgt'', v) *)
+Theorem lower_exponent_assign_equiv :
+  forall (S : Type) (w : world S) (th : val) tgt v n,
+    valid_target S w tgt -> below n tgt -> below n v ->
+    forall m s, observe (eval w th (fst (lowerExpAsg tgt v n)) m s)
+              = observe (eval w th (EOpAsg APow tgt v) m s).
+Proof. exact lowerExpAsg_general. Qed.
+Print Assumptions lower_exponent_assign_equiv.
 
 (* t?.name  =>  (_n = t) == null ? void 0 : _n.name *)
 Theorem lower_optional_chain_dot_equiv_partial :
